@@ -157,6 +157,12 @@ def generate(rng, tier):
                        (bf - 1, bl + 1), (bf, bf), (bl, bl), (bl, bl + 1), (bf - 1, bf)):
             if 0 <= f <= l <= m:
                 cases += _spans_as_cases(rng, ver, f, l, 'edge-range', every=True)
+    # IPv4-mapped / IPv4-compatible IPv6 spellings of the IPv4 block ends: classified as IPv6
+    for (ver, bf, bl) in blocks:
+        if ver == 4:
+            for v in (bf, bl):
+                cases.append(_case(('A', 6, (0xffff << 32) | v, rng.choice(['obj', 'str'])), 'v4-mapped'))
+                cases.append(_case(('A', 6, v, 'obj'), 'v4-compat'))
     # ranges joining boundary points of different blocks
     for ver in (4, 6):
         w = W[ver]
@@ -215,7 +221,9 @@ def oracle(c, got):
     if got != exp:
         return ('unicast/multicast/loopback/private/link_local/reserved = %s, the published blocks give %s for '
                 'ver %d [%d, %d]' % (got, exp, ver, f, l))
-    if f == l:
+    if f == l and not (ver == 6 and (f >> 32) == 0xffff):
+        # (newer CPython versions classify IPv4-mapped IPv6 addresses by the embedded IPv4
+        # address; netaddr and the registries do not, so those are left to the block lists)
         pa = ipaddress.ip_address(_astr(ver, f))
         std = (pa.is_multicast, pa.is_loopback, pa.is_link_local)
         mine = (got[1] == 'T', got[2] == 'T', got[4] == 'T')
